@@ -543,12 +543,26 @@ class Builder:
                     ipd = (subs[0].get("path") or {}).get("def")
                     return (pd, ipd) if ipd else None
                 return None
+            def pat_paths(pt):
+                """all shapes an or-pattern of variants matches exactly, else []"""
+                while pt.get("k") in ("ref", "deref") and isinstance(pt.get("sub"), dict):
+                    pt = pt["sub"]
+                if pt.get("k") == "or":
+                    out_ = []
+                    for alt_ in pt.get("alts") or []:
+                        q = pat_paths(alt_)
+                        if not q:
+                            return []
+                        out_ += q
+                    return out_
+                q = pat_path(pt)
+                return [q] if q else []
             for gd, x in S[1]:
                 if isinstance(gd.get("scrut"), dict) and isinstance(gd.get("pat"), dict):
                     scrut = (H.place(gd["scrut"]) or "").lstrip("*&") or None
-                    pp = pat_path(gd["pat"])
-                    if pp and gd.get("arm_guard") is None:
-                        specific.add(pp)
+                    if gd.get("arm_guard") is None:
+                        for pp in pat_paths(gd["pat"]):
+                            specific.add(pp)
             for gd, x in S[1]:
                 if g is not None and g in self.fixed and gd["taken"] != self.fixed[g]:
                     continue
@@ -765,7 +779,16 @@ class Builder:
             cal = S[1]
             short = cal.rsplit("::", 1)[-1]
             if short in NONTERMINALS and not (short == self.entry_name and not self.stack[1:]):
-                a.add(s, NONTERMINALS[short], e, {"fn": fname, "call": cal, "sp": S[3], "ord": self.ordinal(fname, cal, S[3]), "ctx": self.last_lit})
+                sym_ = NONTERMINALS[short]
+                if sym_ == "<expr>":
+                    # an expression that cannot be an operator expression here (a calling match took Binary / Unary elsewhere)
+                    for an in S[2].get("arg_nodes") or []:
+                        v_ = H.peel_ref(an) if isinstance(an, dict) else None
+                        if isinstance(v_, dict) and v_.get("k") == "local":
+                            ex_ = self.excl.get(v_["name"]) or ()
+                            if ("crate::expr::SimpleExpr::Binary",) in ex_ and ("crate::expr::SimpleExpr::Unary",) in ex_:
+                                sym_ = "<atom>"
+                a.add(s, sym_, e, {"fn": fname, "call": cal, "sp": S[3], "ord": self.ordinal(fname, cal, S[3]), "ctx": self.last_lit})
                 return
             nd = S[2].get("node") or {}
             fe = H.peel_ref(nd.get("fn_expr")) if isinstance(nd.get("fn_expr"), dict) else None
